@@ -37,10 +37,15 @@ def describe(cfg, events):
     return out
 
 
-def run(run, prop, files, profile, w, n_quick, n_thorough, length, oracles=None, known=None, extra_scenarios=()):
+DEFAULT_THEMES = (("handshake_in", 2, 40, 3, 400), ("handshake_out", 2, 40, 3, 400), ("ready", 2, 80, 2, 3000))
+
+
+def run(run, prop, files, profile, w, n_quick, n_thorough, length, oracles=None, known=None, extra_scenarios=(),
+        themes=DEFAULT_THEMES):
     thorough = run.tier == "thorough"
     n = n_thorough if thorough else n_quick
-    run.rule = (f"adaptive random event histories (length {length}) over accept / CER of every outcome / CEA / requests (valid and "
+    run.rule = (f"bounded-exhaustive enumeration (every action sequence up to depth 2 quick / 3 thorough over handshake and ready-state "
+                f"alphabets, plus longer random ones; tools/nodeenum.py) and adaptive random event histories (length {length}) over accept / CER of every outcome / CEA / requests (valid and "
                 f"defective) / base protocol / stray and retransmitted messages / application answers / closes / errors / stalls / "
                 f"clock advances on random configurations; property oracle on the implementation trace + state snapshot compared with "
                 f"the Coq node model after EVERY event; non-trivial = distinct history (configuration + event list)")
@@ -51,11 +56,39 @@ def run(run, prop, files, profile, w, n_quick, n_thorough, length, oracles=None,
     cases, meta = [], []
     seeds = [run.seed * 100003 + s for s in range(n)]
     dist = {}
-    for sc in list(extra_scenarios) + [None] * n:
-        if sc is None:
+    import nodeenum
+    enumerated = []
+    for (theme, dq, rq, dt, rt) in themes:
+        k0 = len(enumerated)
+        try:
+            if theme in nodeenum.PHASED:
+                # phased theme: (name, limit quick, _, limit thorough, _); None = every combination
+                enumerated += list(nodeenum.enumerate_phased(theme, limit=dt if thorough else dq, seed=run.seed))
+            else:
+                enumerated += list(nodeenum.enumerate_theme(theme, dt if thorough else dq, extra_random=rt if thorough else rq,
+                                                            seed=run.seed))
+        except Exception as e:   # noqa
+            if type(e).__name__ in ("HarnessStuck", "SpinDetected"):
+                run.violation("no-spin", {"scenario": f"enumeration of theme {theme}"}, str(e)[:400],
+                              what="a node thread keeps running without ever blocking (busy loop)")
+            else:
+                raise
+        run.extra.setdefault("enumerated", {})[theme] = len(enumerated) - k0
+    for sc in list(extra_scenarios) + enumerated + [None] * n:
+        if sc is not None and len(sc) == 4:
+            name, cfg, events, obs = sc
+        elif sc is None:
             s = seeds.pop(0)
-            cfg, events, obs = nodegen.run_random(s, profile, w, length)
             name = f"random seed {s}"
+            try:
+                cfg, events, obs = nodegen.run_random(s, profile, w, length)
+            except Exception as e:   # noqa
+                if type(e).__name__ in ("HarnessStuck", "SpinDetected"):
+                    run.count(1, [(name, 0)])
+                    run.violation("no-spin", {"scenario": name}, str(e)[:400],
+                                  what="a node thread keeps running without ever blocking (busy loop) in this history")
+                    continue
+                raise
         else:
             name, cfg, events = sc
             obs = NS.run_scenario(cfg, events)
